@@ -239,24 +239,27 @@ Qed.
 Lemma last_rev {A} (l : list A) d : last (rev l) d = hd d l.
 Proof. destruct l as [|a l]; [reflexivity|]. cbn [rev hd]. apply last_last. Qed.
 
+Lemma strip_nul_rev p : strip_nul p = rev (drop_zeros (rev p)).
+Proof. unfold strip_nul. now rewrite <- !rev_alt. Qed.
+
 Lemma strip_nul_idem p : strip_nul (strip_nul p) = strip_nul p.
-Proof. unfold strip_nul. now rewrite rev_involutive, drop_zeros_idem. Qed.
+Proof. rewrite !strip_nul_rev. now rewrite rev_involutive, drop_zeros_idem. Qed.
 
 Lemma strip_nul_last p : last (strip_nul p) 1 <> 0.
-Proof. unfold strip_nul. rewrite last_rev. apply drop_zeros_hd. Qed.
+Proof. rewrite strip_nul_rev. rewrite last_rev. apply drop_zeros_hd. Qed.
 
 Lemma strip_nul_app_zero s : strip_nul (s ++ [0]) = strip_nul s.
-Proof. unfold strip_nul. rewrite rev_app_distr. reflexivity. Qed.
+Proof. rewrite !strip_nul_rev. rewrite rev_app_distr. reflexivity. Qed.
 
 Lemma ascii_ok_strip p : ascii_ok p = true -> ascii_ok (strip_nul p) = true.
 Proof.
-  unfold ascii_ok, strip_nul. rewrite !forallb_forall. intros H x Hx. apply H.
+  rewrite strip_nul_rev. unfold ascii_ok. rewrite !forallb_forall. intros H x Hx. apply H.
   apply in_rev in Hx. apply drop_zeros_In in Hx. now apply in_rev.
 Qed.
 
 Lemma bytes_ok_strip p : bytes_ok p = true -> bytes_ok (strip_nul p) = true.
 Proof.
-  unfold bytes_ok, strip_nul. rewrite !forallb_forall. intros H x Hx. apply H.
+  rewrite strip_nul_rev. unfold bytes_ok. rewrite !forallb_forall. intros H x Hx. apply H.
   apply in_rev in Hx. apply drop_zeros_In in Hx. now apply in_rev.
 Qed.
 
